@@ -8,6 +8,7 @@ CONSTANTS
   CloserSeesCtx = FALSE
   CloseOn = "wg"
   SendSelectsDone = TRUE
+  FastPath = FALSE
 INVARIANTS TypeOK Conservation CloseAfterDrain SetupOnce EofComplete NoStall AllDone BlockedConsumerReleased RunReturns NoopCloseStartsNothing
 PROPERTIES Terminates
 CHECK_DEADLOCK FALSE
